@@ -6,13 +6,16 @@ ST = 'pyclifford/stabilizer.py::'
 GATES = ['pyclifford/circuit.py::CliffordGate.forward#generator_global', 'pyclifford/circuit.py::CliffordGate.backward#generator_global',
          'pyclifford/circuit.py::CliffordGate.forward#map_global', 'pyclifford/circuit.py::CliffordGate.forward#generator_global_state',
          'pyclifford/circuit.py::CliffordGate.backward#generator_global_state', 'pyclifford/circuit.py::CliffordGate.forward#map_global_state']
+LOCAL_GATES = ['pyclifford/circuit.py::CliffordGate.forward#generator_local', 'pyclifford/circuit.py::CliffordGate.backward#generator_local',
+               'pyclifford/circuit.py::CliffordGate.forward#map_local']
+MASK_LEMMAS = ['mask_index', 'inq_exists', 'inq_member']
 CLASS_LAYER = [PA + 'Pauli.__matmul__#Pauli', PA + 'Pauli.__neg__', PA + 'Pauli.copy', PA + 'PauliList.copy',
-               PA + 'PauliList.rotate_by#nomask', PA + 'PauliList.transform_by#nomask', ST + 'CliffordMap.copy', ST + 'CliffordMap.compose',
+               PA + 'PauliList.rotate_by#nomask', PA + 'PauliList.transform_by#nomask', PA + 'PauliList.rotate_by#mask', PA + 'PauliList.transform_by#mask', ST + 'CliffordMap.copy', ST + 'CliffordMap.compose',
                ST + 'CliffordMap.to_state#r', ST + 'CliffordMap.to_state#none', ST + 'StabilizerState.copy', ST + 'StabilizerState.to_map',
                ST + 'StabilizerState.expect#list', ST + 'identity_map', ST + 'StabilizerState.measure#list', ST + 'StabilizerState.postselect',
                ST + 'StabilizerState.expect#state', ST + 'CliffordMap.inverse', 'pyclifford/circuit.py::MeasureLayer.forward', PA + 'PauliList.__neg__', PA + 'PauliList.rotate_by#state', PA + 'PauliList.transform_by#state', PA + 'PauliPolynomial.__matmul__#poly', PA + 'Pauli.__matmul__#Monomial',
                'pyclifford/circuit.py::CliffordGate.forward#generator_global', 'pyclifford/circuit.py::CliffordGate.backward#generator_global',
-               'pyclifford/circuit.py::CliffordGate.forward#map_global'] + GATES[3:] + \
+               'pyclifford/circuit.py::CliffordGate.forward#map_global'] + GATES[3:] + LOCAL_GATES + \
               [PA + '%s.__rmul__#%s' % (c, t) for c in ('Pauli', 'PauliList') for t in ('1', 'i', 'm1', 'mi')]
 
 # every kernel that currently has a discharged contract (their frame.* obligations are the C17 frame conditions)
@@ -20,7 +23,7 @@ MEASURE_LEMMAS = ['ordp_parity', 'xzpartial_full', 'selacq_map', 'selacq_image',
                   'ipowsum_ext', 'symplectic_complete']
 KERNELS = [U + f for f in ('batch_dot', 'random_pair', 'pauli_diagonalize1', 'stabilizer_measure', 'stabilizer_project', 'stabilizer_postselection', 'stabilizer_projection_trace', 'acq', 'ipow', 'p0', 'ps0', 'acq_mat', 'pauli_tokenize', 'pauli_combine', 'pauli_transform',
                            'clifford_rotate', 'clifford_rotate_signless', 'map_to_state', 'state_to_map', 'front',
-                           'pauli_is_onsite', 'stabilizer_expect', 'z2inv', 'z2rank')]
+                           'pauli_is_onsite', 'stabilizer_expect', 'z2inv', 'z2rank', 'mask')]
 
 
 def _b():
@@ -42,8 +45,9 @@ def C01(run):
 
 
 def C02(run):
-    run.deductive(keys=[U + 'clifford_rotate', U + 'clifford_rotate_signless', U + 'acq', U + 'ipow', PA + 'PauliList.rotate_by#nomask', PA + 'PauliList.rotate_by#state'],
-                  lemmas=['acq_bilinear', 'acq_antisym', 'ipow_parity', 'rotate_twice'])
+    run.deductive(keys=[U + 'clifford_rotate', U + 'clifford_rotate_signless', U + 'acq', U + 'ipow', PA + 'PauliList.rotate_by#nomask', PA + 'PauliList.rotate_by#state',
+                        PA + 'PauliList.rotate_by#mask'],
+                  lemmas=['acq_bilinear', 'acq_antisym', 'ipow_parity', 'rotate_twice', 'mask_index'])
     run.bounded_check('c02_rotation', _b().c02_rotation, Nmax=q(run, 2, 3))
     return 'other', ('deductive (all N, all L): clifford_rotate leaves commuting rows unchanged and replaces anticommuting rows by '
                      'i*P*G with the exact phase, modifies only gs/ps; bounded: rotate_by on every receiver kind, all masks, '
@@ -51,8 +55,9 @@ def C02(run):
 
 
 def C03(run):
-    run.deductive(keys=[U + 'pauli_combine', U + 'pauli_transform', U + 'ps0', U + 'ipow', PA + 'PauliList.transform_by#nomask', PA + 'PauliList.transform_by#state'],
-                  lemmas=['ipowsum_ext', 'ordg_bits', 'acq_zero', 'acq_bilinear', 'acq_antisym', 'acqsum_ext', 'ordg_acq', 'selacq_map', 'selacq_image',
+    run.deductive(keys=[U + 'pauli_combine', U + 'pauli_transform', U + 'ps0', U + 'ipow', PA + 'PauliList.transform_by#nomask', PA + 'PauliList.transform_by#state',
+                        PA + 'PauliList.transform_by#mask'],
+                  lemmas=['mask_index', 'ipowsum_ext', 'ordg_bits', 'acq_zero', 'acq_bilinear', 'acq_antisym', 'acqsum_ext', 'ordg_acq', 'selacq_map', 'selacq_image',
                           'partnersum_acq', 'transform_preserves_acq', 'ordp_parity', 'xzpartial_full', 'ipow_parity'])
     run.bounded_check('c03_transform', _b().c03_transform, Nmax=q(run, 2, 3), count=q(run, 25, 400))
     return 'other', ('deductive (all N): pauli_combine = ordered product (OrdG/OrdP), pauli_transform = homomorphic extension with the x.z '
@@ -109,13 +114,18 @@ def C08(run):
 
 def C09(run):
     run.deductive(keys=[GATES[0], GATES[2], GATES[3], GATES[5], U + 'clifford_rotate', U + 'pauli_transform', PA + 'PauliList.rotate_by#state',
-                        PA + 'PauliList.transform_by#state'], lemmas=MEASURE_LEMMAS)
+                        PA + 'PauliList.transform_by#state', U + 'mask', PA + 'PauliList.rotate_by#mask', PA + 'PauliList.transform_by#mask'] + LOCAL_GATES,
+                  lemmas=MEASURE_LEMMAS + MASK_LEMMAS)
     run.bounded_check('c09_circuits', _b().c09_circuits, Nmax=3, programs=q(run, 40, 1500), maxlen=q(run, 5, 9), pack_len=q(run, 4, 5), pack_sample=q(run, 1500, 40000))
-    return 'other', 'bounded: random gate programs in all 3x2x3 configurations against gate-by-gate application; locality of every gate'
+    return 'other', ('deductive (all N, all qubit tuples): a local generator / map gate acts on the compressed strings of its declared qubits exactly as '
+                     'the small rotation / map and leaves every column of an undeclared qubit untouched (mask() = characteristic vector of the '
+                     'qubit tuple, masked rotate_by / transform_by through the assumed numpy boolean-index semantics); full-register gates are '
+                     'the rotation / map; bounded: layer packing (ALL support programs of <= 4 gates on N=3), copy / compose / compile '
+                     'configurations and histories against gate-by-gate application')
 
 
 def C10(run):
-    run.deductive(keys=[GATES[0], GATES[1], GATES[4], U + 'clifford_rotate', PA + 'Pauli.__neg__'], lemmas=['rotate_twice'])
+    run.deductive(keys=[GATES[0], GATES[1], GATES[4], U + 'clifford_rotate', PA + 'Pauli.__neg__'] + LOCAL_GATES[:2], lemmas=['rotate_twice'] + MASK_LEMMAS)
     run.bounded_check('c10_inverse', _b().c10_inverse, Nmax=3, programs=q(run, 40, 1500), maxlen=q(run, 5, 9))
     return 'other', 'bounded: backward/forward round trips of gates, layers and circuits (compiled or not) on Pauli lists and states with rank'
 
